@@ -8,8 +8,8 @@ PROPERTIES = ["C19"]
 MANIFEST = {
     "C19": {
         "technique": "Lean 4 proof about (a) a model of the path scanners of File.cpp with a stack-machine denotation of path strings and (b) a model of the File/Directory algorithms over an assumed POSIX-like world (flat tree: directory | file bytes | symbolic link) + differential correspondence model vs real File.cpp/Directory.cpp (exhaustive small strings; scratch-directory snapshots with an outside sentinel, interposed sendfile/mkdir faults, ASan/UBSan) + independent Python reference (own stack machine cross-checked with posixpath; own kernel-like resolver and byte-array file semantics evaluating the laws of C19 on the implementation's observations)",
-        "text": "Theorems for ALL path strings: simplifyPath returns the canonical text of the denotation (hence idempotent, denotation preserving, deciding lexical equivalence), directory+separator+base name and stem+'.'+extension recompose, getRelativePath(from,to) appended to from denotes to exactly when a relative path exists lexically and is empty otherwise (the hypothesis is proved necessary). Theorems for ALL worlds / path strings / injected faults of the file-system model: scripts of write/seek/readAll/size on a File refine a byte array with position; File::open(write[|append]) + writes + File::readAll(path) returns exactly the written bytes (after the old ones when appending); successful copy and rename carry exactly the bytes; failed open/rename/copy leave no new entry (copy: except a transfer fault through a symlinked destination, spelled out); Directory::create returns true iff the directory exists afterwards, then all parents exist, it only adds directories, and it succeeds when only directories are in the way; Directory::unlink only removes entries of the given tree whatever symbolic links it contains (never follows one out), and recursive unlink of an existing plain directory in a well-formed world succeeds and removes exactly the tree; every history of operations (the driver's state transitions are the proved `fsApply`) keeps the world well-formed (wf_run), so these hold after any history; Directory::read lists exactly the entries; rename of a directory moves exactly its subtree; on the POSIX build a backslash is a separator for the path functions (backslash_is_separator). The models are tied to the current sources on every run by executing identical op lines on model and real code.",
-        "note": "Trusted: Lean kernel + propext/Classical.choice/Quot.sound; the hand translation of File.cpp/Directory.cpp (POSIX branches, with fixes/path/*.patch applied) into Nstd/Path/Model.lean and FsLib.lean (validated by the correspondence run, not proved); the POSIX semantics of mkdir/rmdir/unlink/rename/open/readdir/stat/lstat/lseek/read/write/sendfile/symlink is ASSUMED: it is the Lean definition in Nstd/Path/Fs.lean and is compared with the real kernel (ext4/tmpfs under $TMPDIR) only through the snapshots of the correspondence run. Hypotheses of the unlink theorems: a plain path to the directory (its parent chain consists of real directories; links INSIDE the tree are arbitrary) and a well-formed world (names are names, no path stored twice, parents are directories) — the latter is proved for every history (wf_run) and additionally checked on every model state the run reaches; the model keeps the working directory and its ancestors (rmdir/rename of them are rejected), plain path (its parent chain consists of real directories; links INSIDE the tree are arbitrary). Only tested by the correspondence, not proved: File::exists/Directory::exists results, the harness-side fault interposition. Outside: permissions, d_type == DT_UNKNOWN file systems, hard links, files unlinked/renamed while open, concurrent modification, Windows branches, '\\' in file-system paths (POSIX treats it as an ordinary byte, File.cpp as a separator), paths climbing above the scratch world, getAbsolutePath/time/isExecutable.",
+        "text": "Theorems for ALL path strings: simplifyPath returns the canonical text of the denotation (hence idempotent, denotation preserving, deciding lexical equivalence), directory+separator+base name and stem+'.'+extension recompose, getRelativePath(from,to) appended to from denotes to exactly when a relative path exists lexically and is empty otherwise (the hypothesis is proved necessary). Theorems for ALL worlds / path strings / injected faults of the file-system model: scripts of write/seek/readAll/size on a File refine a byte array with position; File::open(write[|append]) + writes + File::readAll(path) returns exactly the written bytes (after the old ones when appending); successful copy and rename carry exactly the bytes, and they do succeed when nothing is in the way (copy_succeeds, rename_succeeds); failed open/rename/copy (without an injected transfer fault) leave the tree unchanged; failed open/rename/copy leave no new entry (copy: except a transfer fault through a symlinked destination, spelled out); Directory::create returns true iff the directory exists afterwards, then all parents exist, it only adds directories, and it succeeds when only directories are in the way; Directory::unlink on EVERY path string only removes entries inside the directory the path resolves to (never follows a symbolic link of the tree; nothing changes when the path does not name a directory), and recursive unlink of an existing plain directory in a well-formed world succeeds and removes exactly the tree; every history of operations (the driver's state transitions are the proved `fsApply`) keeps the world well-formed (wf_run), so these hold after any history; Directory::read lists exactly the entries; rename of a directory moves exactly its subtree; on the POSIX build a backslash is a separator for the path functions (backslash_is_separator). The models are tied to the current sources on every run by executing identical op lines on model and real code.",
+        "note": "Trusted: Lean kernel + propext/Classical.choice/Quot.sound; the hand translation of File.cpp/Directory.cpp (POSIX branches, with fixes/path/*.patch applied) into Nstd/Path/Model.lean and FsLib.lean (validated by the correspondence run, not proved); the POSIX semantics of mkdir/rmdir/unlink/rename/open/readdir/stat/lstat/lseek/read/write/sendfile/symlink is ASSUMED: it is the Lean definition in Nstd/Path/Fs.lean and is compared with the real kernel (ext4/tmpfs under $TMPDIR) only through the snapshots of the correspondence run. Hypotheses of the unlink theorems: a plain path to the directory (its parent chain consists of real directories; links INSIDE the tree are arbitrary) and a well-formed world (names are names, no path stored twice, parents are directories) — the latter is proved for every history (wf_run) and additionally checked on every model state the run reaches; the model keeps the working directory and its ancestors (rmdir/rename of them are rejected), plain path (its parent chain consists of real directories; links INSIDE the tree are arbitrary). Only tested by the correspondence, not proved: File::exists/Directory::exists results, the harness-side fault interposition. The assumed kernel splits path strings at '/' only (a backslash is part of a name; Directory::create as repaired by fix 0010 does the same on POSIX) and rmdir answers EINVAL/ENOTEMPTY for a last component '.'/'..'. Outside: permissions, d_type == DT_UNKNOWN file systems, hard links, files unlinked/renamed while open, concurrent modification, Windows branches, paths climbing above the scratch world, getAbsolutePath/time/isExecutable.",
         "design_ref": "DESIGN.md 3/C19",
     }
 }
